@@ -112,6 +112,8 @@ func (o op) String() string {
 		return fmt.Sprintf("LockRegion(%d,%d,%d,%d,%v)", o.X, o.Y, o.W, o.H, o.Lock)
 	case "resize":
 		return fmt.Sprintf("resize(%dx%d quiet=%v)", o.W, o.H, o.Quiet)
+	case "winsizefail":
+		return fmt.Sprintf("WindowSize fails=%v", o.Lock)
 	}
 	return o.Kind
 }
@@ -243,6 +245,8 @@ func drawOps(t *rapid.T, maxW, maxH int, withResize bool) []op {
 			ops = append(ops, op{Kind: "resize", W: rapid.IntRange(1, maxW).Draw(t, "rw"), H: rapid.IntRange(1, maxH).Draw(t, "rh"), Quiet: rapid.IntRange(0, 3).Draw(t, "quiet") != 0})
 		case k == 28 && withResize:
 			ops = append(ops, op{Kind: "corrupt", Seed: rapid.IntRange(0, 1000).Draw(t, "cseed")})
+		case k == 29 && withResize:
+			ops = append(ops, op{Kind: "winsizefail", Lock: rapid.Bool().Draw(t, "wsfail")})
 		default:
 			ops = append(ops, op{Kind: "show"})
 		}
@@ -787,7 +791,12 @@ func (w *dw) appActor() {
 			w.corrupted = true
 			w.dirtyHist = true
 		case "resize":
+			w.Tty.WinSizeFail = false
 			w.doResize(o)
+		case "winsizefail":
+			// the size query fails for a while: the library must keep drawing
+			// at the size it knows (the size itself does not change meanwhile)
+			w.Tty.WinSizeFail = o.Lock
 		}
 	}
 }
@@ -945,6 +954,7 @@ func runDraw(t *rapid.T, prop string) {
 func (w *dw) finalRepaint() {
 	s := w.S
 	fin := s.Spawn("app-final", func() {
+		w.Tty.WinSizeFail = false
 		cw, chh := w.Scr.Size()
 		tw, th := w.Tty.W, w.Tty.H
 		if cw != tw || chh != th {
